@@ -41,6 +41,14 @@ def serial_run(program, order, hist, doc_index_of, paths, kinds):
     for i, d in enumerate(docs):
         if d is None:
             docs[i] = {} if roots[i] == "dict" else []
+    for op in program.get("pre_ops", []):
+        # operations the main thread performed (inside the context) before the threads started
+        h = op["h"]
+        try:
+            cont = get_path(docs[doc_index_of[h]], paths[h])
+        except LookupError:
+            return False, None
+        ops.model_apply(cont, kinds[h], op["m"], dec(op.get("a", [])), dec(op.get("kw", {})))
     for (t, n) in order:
         op = program["threads"][t][n]
         h = op["h"]
